@@ -165,6 +165,20 @@ class WrapMon(Monitor):
         pulls = [e for e in evs if e[0] == "pull"]
         rews = [e for e in evs if e[0] == "reward"]
         i = ctx.round - 1  # 0-based index of the round just completed
+        for e in news:
+            # a wrapper runs its base learners on the search space it was given: same partition class, same domain
+            L = self.rec.learners[e[1]]
+            part = getattr(L["obj"], "partition", None)
+            want = getattr(ctx.hub, "part_cls", None)
+            if part is None or want is None or not hasattr(part, "get_root"):
+                continue  # (stub learners have no partition)
+            self.obs["learner_search_spaces_checked"] += 1
+            dom = part.get_root().get_domain()
+            if not isinstance(part, want) or [list(x) for x in dom] != [list(x) for x in ctx.box]:
+                pre = "C10" if self.fam == "POO" else "C09"
+                self.v(pre + ":base_learner_not_built_on_the_partition_and_domain_given_to_the_wrapper",
+                       learner=e[1], partition=type(part).__mro__[1].__name__ if len(type(part).__mro__) > 1 else type(part).__name__,
+                       domain=dom)
         if self.fam == "POO":
             self._poo_round(ctx, i, r, news, pulls, rews)
         elif not self.ambiguous:
